@@ -20,6 +20,17 @@ Every decode of the real code runs
                       MarshallingError where the models say a built-in exception escapes: hardening).  Where the driver
                       binary of C01 is present and not older than any source in its import closure, the same inputs go through `drv_c01 unmarshal` as well (the
                       value model as C01 itself runs it, fuel 300) and its verdict is compared with the one above.
+                      State-leak round 2026-09-30 (STATE_AUDIT G8 iii / v): HISTORIES in one process, nothing re-imported,
+                      every step judged by the same oracle and the same correspondence as a single case -
+                      `poison-then-valid`: per fresh random signature S: valid decode, failing variants of the SAME signature
+                      (truncations, mutations, lying lengths, a faulted signature on the same bytes), the valid one again,
+                      the suffixes of S, `(S)`, `a(S)`, the valid one again; and a zero-size-element twin (`a` + a fresh
+                      zero-size element type) presented several times around it;  `same-bytes-two-fds`: the same bytes under
+                      descriptor list A, list B, a short list, None, A again (the decoded descriptors must come from THIS
+                      call's list);  `cumulative-growth` (oracle only): 20,000 pairwise DISTINCT hostile inputs (top-level
+                      signature, signature inside a variant, body signature of a message) - every one within its step budget,
+                      and what the process retains afterwards must not grow with their number.
+                      A violation found inside a history is stored with the whole history up to the failing step.
   S4 property oracle  (implementation only) the decode returns or raises an ordinary Exception within
                       K*(len+1) counted invocations (K from the proved bound: longest signature in play + 2),
                       the result has at most steps+1 nodes and its strings together at most len(data)
@@ -37,7 +48,7 @@ import time
 
 STREAMS = ['unmarshal-valid-truncated-mutated', 'message-truncated-mutated', 'lying-lengths',
            'hostile-signatures', 'hostile-message-signature', 'huge-lengths', 'random-bytes', 'scaling',
-           'cost-vs-code-vs-impl']
+           'cost-vs-code-vs-impl', 'poison-then-valid', 'same-bytes-two-fds', 'cumulative-growth']
 THEOREMS = ['tables_good', 'unmarshal_fuel_adequate', 'unmarshal_steps_linear', 'unmarshal_work_linear',
             'unmarshal_depth_bounded', 'result_size_bounded', 'result_chars_bounded', 'unmarshal_bounded',
             'parseMessage_total', 'parseMessage_work_linear', 'prefix_array_loop_never_terminates',
@@ -85,6 +96,11 @@ ASSUMPTIONS = [
     'stream cost-vs-code-vs-impl is stricter about the exception class than the older streams: both models are proved to '
     'raise the same class (cost_agrees_with_code), and the stream demands that class of the implementation too, except for '
     'the one allowed hardening (the tree\'s own MarshallingError, or a subclass, instead of a built-in exception)',
+    "reading of 'costs the peer only its own connection' / 'never builds data unrelated in size to the input' for state that "
+    'outlives a decode (stream cumulative-growth): what the process retains after decoding N pairwise distinct hostile inputs '
+    'must not grow with N (key decode-state-grows-without-bound: >= 0.25 memory blocks per input between input 5,000 and '
+    '20,000); a bounded cache is allowed.  Steps of a history (poison-then-valid, same-bytes-two-fds) are judged like single '
+    'cases: no later outcome is required to equal an earlier one',
 ]
 RULE = ('valid (signature, value) pairs (13 basic codes incl. h, variants, arrays, dicts, structs; depth <= 3) and valid '
         'messages in both byte orders are generated from the repo\'s own marshaller, then: every truncation; per byte position '
@@ -98,6 +114,7 @@ RECURSION_ROOM = 1000
 GREY = 80
 ALARM_S = 60.0
 SLICE_FACTOR = 8            # sliced bytes allowed per input byte (on /repo: <= 2: the three message slices + the strings)
+GROWTH_LIMIT = 0.25         # retained memory blocks per decoded input (on /repo: < 0.002; an unbounded memo: >= 1)
 MEMORY_ROOM = 768 << 20      # address space a single decode may add (bytes) before MemoryError
 
 
@@ -401,6 +418,22 @@ def case_json(c):
     return d
 
 
+def history_json(c):
+    """the replay input of a case that is a step of a history: all steps up to and including it (a leak through
+    process state does not reproduce from the failing step alone)."""
+    h = c.get('hist')
+    if not h:
+        return None
+    return {'op': 'history', 'cases': [case_json(x) for x in h[:c['hidx'] + 1]]}
+
+
+def as_history(cases):
+    for i, c in enumerate(cases):
+        c['hist'] = cases
+        c['hidx'] = i
+    return cases
+
+
 def case_from_json(d):
     c = {'op': d['op'], 'data': bytes.fromhex(d['data'])}
     if d['op'] == 'u':
@@ -639,6 +672,112 @@ def hostile_data(rng, n):
             b += bytes([len(s)]) + s + b'\0'
         return b[:n]
     return (struct.pack('<I', 0xffffffff) + b'\1' * n)[:n]
+
+
+# ------------------------------------------------------------------ histories (state-leak round)
+ZERO_SIZE = ['()', '{}', '(())', '(()())', '({})', '{()()}', '((()))', '(()(()))']
+
+
+def zero_size_elem(rng):
+    """a fresh element type that decodes to nothing: nested empty structs / dict entries."""
+    if rng.random() < 0.4:
+        return rng.choice(ZERO_SIZE)
+    def z(d):
+        if d <= 0:
+            return rng.choice(['()', '{}'])
+        return '(' + ''.join(z(d - 1) for _ in range(rng.randint(1, 2))) + ')'
+    return z(rng.randint(1, 4))
+
+
+def marshal_case(marshal, sig, vals, le, off):
+    fds = []
+    n, chunks = marshal.marshal(sig, vals, off, le, fds)
+    return {'op': 'u', 'sig': sig, 'le': le, 'off': off, 'fds': fds, 'data': b'\0' * off + b''.join(chunks)}
+
+
+def poison_history(rng, marshal):
+    """[valid(S), failing variants of S, valid(S), zero-size twin x2 around it, suffixes of S, (S), a(S), valid(S)]."""
+    k = rng.choice([2, 2, 3, 4])
+    types = [gen_type(rng, rng.choice([0, 1, 2])) for _ in range(k)]
+    if rng.random() < 0.6:                       # an array FOLLOWED by more types: the rest of the signature is split on its own
+        types[rng.randrange(k - 1)] = 'a' + gen_type(rng, rng.choice([0, 1]))
+    sig = ''.join(types)
+    vals = [gen_value(rng, marshal, t) for t in types]
+    le = rng.random() < 0.7
+    off = rng.choice([0, 0, 8, 3])
+    valid = marshal_case(marshal, sig, vals, le, off)
+    data = valid['data']
+    hist = [dict(valid)]
+    for d in truncations(data, rng, 3):
+        if len(d) >= off:
+            hist.append(dict(valid, data=d))
+    for d in byte_mutations(data, rng, 2):
+        hist.append(dict(valid, data=d))
+    for d in length_lies(data, le, rng, 2):
+        hist.append(dict(valid, data=d))
+    hist.append(dict(valid, sig=fault_sig(rng, sig)))
+    hist.append(dict(valid))
+    z = zero_size_elem(rng)
+    zsig = rng.choice(['a' + z, 'a' + z + sig, types[0] + 'a' + z, 'aa' + z, 'a(y' + z[1:]]) if z.startswith('(') else 'a' + z
+    n = rng.choice([1, 4, 8, 16])
+    zdata = b'\0' * off + struct.pack('<I' if le else '>I', n) + b'\0' * 28
+    hist.append({'op': 'u', 'sig': 'a' + z, 'le': le, 'off': off, 'data': zdata})
+    hist.append({'op': 'u', 'sig': zsig, 'le': le, 'off': off, 'data': zdata})
+    hist.append(dict(valid))
+    hist.append({'op': 'u', 'sig': 'a' + z, 'le': le, 'off': off, 'data': zdata})
+    hist.append({'op': 'u', 'sig': zsig, 'le': le, 'off': off, 'data': zdata})
+    for j in range(1, len(types)):               # the suffixes, with fresh valid data
+        hist.append(marshal_case(marshal, ''.join(types[j:]), vals[j:], le, off))
+    hist.append(marshal_case(marshal, '(' + sig + ')', [list(vals)], le, off))
+    hist.append(marshal_case(marshal, 'a(' + sig + ')', [[list(vals), list(vals)]], le, off))
+    hist.append(dict(valid))
+    return as_history(hist)
+
+
+def fds_history(rng, marshal):
+    """the same bytes under descriptor list A, list B, a short list, None, A again."""
+    t = rng.choice(['h', 'ah', '(sh)', 'a{sh}', 'a{hy}', 'a(hh)', 'hvh', '(h(hs))'])
+    types = split_types(marshal, t)
+    vals = [gen_value(rng, marshal, x) for x in types]
+    c = marshal_case(marshal, t, vals, rng.random() < 0.7, rng.choice([0, 8]))
+    n = max(len(c['fds']), 1)
+    a = [1000003 + i for i in range(n)]
+    b = [2000003 + i for i in range(n)]
+    hist = [dict(c, fds=a, own=a, foreign=b), dict(c, fds=b, own=b, foreign=a), dict(c, fds=b[:n - 1], own=b, foreign=a),
+            dict(c, fds=None), dict(c, fds=[], own=[], foreign=a + b), dict(c, fds=a, own=a, foreign=b)]
+    return as_history(hist)
+
+
+def flat_ints(v, out):
+    if isinstance(v, bool):
+        return out
+    if isinstance(v, int):
+        out.append(v)
+    elif isinstance(v, (list, tuple)):
+        for x in v:
+            flat_ints(x, out)
+    elif isinstance(v, dict):
+        for k, w in v.items():
+            flat_ints(k, out)
+            flat_ints(w, out)
+    return out
+
+
+GROWTH_ALPHABET = 'a(){}yisvgxzbdh'
+
+
+def growth_case(rng, i):
+    """the i-th of a family of pairwise distinct small hostile inputs."""
+    k = rng.choice([2, 3, 4, 6, 8, 12])
+    s = ''.join(rng.choice(GROWTH_ALPHABET) for _ in range(k)) + '%x' % i
+    data = hostile_data(rng, rng.choice([0, 4, 8, 16]))
+    r = i % 3
+    if r == 0:
+        return {'op': 'u', 'sig': s, 'le': True, 'off': 0, 'data': data}
+    sb = s.encode()
+    if r == 1:
+        return {'op': 'u', 'sig': 'v', 'le': True, 'off': 0, 'data': bytes([len(sb)]) + sb + b'\0' + data}
+    return {'op': 'p', 'data': raw_message([f_path, f_member, f_sig_g(s)], data)}
 
 
 # ------------------------------------------------------------------ hand-made messages
@@ -1136,6 +1275,9 @@ class Runner:
             if c['op'] == 'u':
                 obs['consumed'] = v[0]
                 obs['nvalues'] = len(v[1])
+                if 'foreign' in c:               # same-bytes-two-fds: descriptors of ANOTHER call's list in this result
+                    ints = set(flat_ints(v[1], []))
+                    obs['foreign_fds'] = sorted(ints & set(c['foreign']))
                 obs['nodes'], obs['chars'] = nodes(v[1])
             else:
                 body = v.body if v.body is not None else []
@@ -1147,6 +1289,7 @@ class Runner:
     def judge(self, stream, c, obs, mline):
         ctx = self.ctx
         cj = case_json(c)
+        vj = history_json(c) or cj          # what a violation is stored with: the whole history when the case is a step of one
         st = obs['status']
         cpu = obs.pop('cpu', None)
         ctx.case(stream, sample=cj if len(cj['data']) < 400 else None, nontrivial=obs['steps'] >= 2)
@@ -1163,20 +1306,20 @@ class Runner:
         if st == 'ALARM':
             ctx.violation(self.key(c, 'decode-does-not-terminate'),
                           '%s did not finish within %d s on %d bytes' % (what, ALARM_S, nbytes),
-                          inp=cj, observed=obs, expected='return or exception within %d invocations' % obs['bound'])
+                          inp=vj, observed=obs, expected='return or exception within %d invocations' % obs['bound'])
         elif st == 'BUDGET' and 'splitter_generators' in obs:
             ctx.violation('signature-split-not-linear',
                           '%s: genCompleteTypes started %d nested generators after %d unmarshaller invocations '
                           '(one per leading "a" of a piece is what a linear splitter needs)'
                           % (what, obs['splitter_generators'], obs['steps']),
-                          inp=cj, observed=obs, expected='at most (invocations + 2) * 256 nested generators')
+                          inp=vj, observed=obs, expected='at most (invocations + 2) * 256 nested generators')
         elif st == 'BUDGET':
             ctx.violation(self.key(c, 'decode-work-not-linear'),
                           '%s exceeded %d unmarshaller invocations on %d bytes of input'
                           % (what, obs['bound'], nbytes),
-                          inp=cj, observed=obs, expected='return or exception within %d invocations' % obs['bound'])
+                          inp=vj, observed=obs, expected='return or exception within %d invocations' % obs['bound'])
         elif st == 'MEMORY':
-            ctx.violation(self.key(c, 'decode-memory'), '%s raised MemoryError' % what, inp=cj, observed=obs,
+            ctx.violation(self.key(c, 'decode-memory'), '%s raised MemoryError' % what, inp=vj, observed=obs,
                           expected='result size bounded by the input')
         elif st == 'err:RecursionError':
             # every nesting level costs a signature character or at least 2 data bytes (a variant's length byte and
@@ -1187,23 +1330,23 @@ class Runner:
                 ctx.violation(self.key(c, 'recursion-not-justified-by-input'),
                               '%s hit the recursion limit on %d bytes of input (at most %d nesting levels)'
                               % (what, nbytes, levels),
-                              inp=cj, observed=obs, expected='nesting bounded by signature length + data length / 2')
+                              inp=vj, observed=obs, expected='nesting bounded by signature length + data length / 2')
         elif st == 'ok':
             if obs['nodes'] > obs['bound'] + 1 or obs['chars'] > nbytes:
                 ctx.violation(self.key(c, 'result-size-unrelated-to-input'),
                               '%s built %d nodes / %d characters from %d bytes'
                               % (what, obs['nodes'], obs['chars'], nbytes),
-                              inp=cj, observed=obs,
+                              inp=vj, observed=obs,
                               expected='nodes <= %d (linear in the input size), characters <= bytes' % (obs['bound'] + 1))
         if st not in ('ALARM', 'BUDGET', 'MEMORY') and obs['sliced'] > SLICE_FACTOR * nbytes + 1024:
             ctx.violation(self.key(c, 'decode-copies-not-linear'),
                           '%s copied %d bytes out of a %d-byte input by slicing (x%.1f)'
                           % (what, obs['sliced'], nbytes, obs['sliced'] / max(nbytes, 1)),
-                          inp=cj, observed=obs, expected='at most %d x the input + 1024 bytes' % SLICE_FACTOR)
+                          inp=vj, observed=obs, expected='at most %d x the input + 1024 bytes' % SLICE_FACTOR)
         if st not in ('ALARM', 'BUDGET', 'MEMORY') and obs['work'] > work_bound(c):
             ctx.violation(self.key(c, 'decode-work-not-linear'),
                           '%s touched %d characters / bytes (invocations + signature scans + data slices) on %d bytes of input'
-                          % (what, obs['work'], nbytes), inp=cj, observed=obs, expected='work <= %d' % work_bound(c))
+                          % (what, obs['work'], nbytes), inp=vj, observed=obs, expected='work <= %d' % work_bound(c))
         # ---- S3: correspondence with the model.  Compared: ok / error, consumed bytes, and - when both return -
         # invocation count and work (equal), result nodes <= model size.  When both raise: the implementation may stop
         # EARLIER than the model (steps, work <=) and the exception class is recorded, not compared: a decoder hardened to
@@ -1232,6 +1375,8 @@ class Runner:
             ctx.disagree(stream, cj, mline, obs, detail='implementation did not finish within the proved bound')
             return
         bad = []
+        if obs.get('foreign_fds'):
+            bad.append('descriptors of another call')
         if c.get('fds', []) is None and mst == 'err:TypeError' and st != mst:
             # oobFDs=None is only the public default of marshal.unmarshal, never what txdbus itself passes: a tree that
             # treats None as "no descriptors" is as good as one that raises TypeError on the first UNIX_FD
@@ -1325,6 +1470,68 @@ class Runner:
         if bad:
             ctx.disagree(XSTREAM, cj, xline, {k: v for k, v in obs.items()},
                          detail='value model (and cost model) vs implementation: ' + ','.join(bad))
+
+    def growth(self, seed, n1, n2):
+        """Stream cumulative-growth (oracle only).  n2 pairwise distinct hostile inputs are decoded one after the other in
+        this process; each under its own step budget / alarm like any other case (so work PER INPUT is bounded whatever
+        came before), and the number of memory blocks the interpreter holds (after a collection) is read after n1 and
+        after n2 inputs.  A decoder that remembers something per input it has seen - an unbounded memo keyed by
+        signature or bytes - grows by at least one block per input; a bounded cache has saturated long before n1."""
+        import random
+        ctx = self.ctx
+        rng = random.Random(seed)
+        inp = {'op': 'growth', 'seed': seed, 'n1': n1, 'n2': n2}
+        outcomes = {}
+        worst = None
+        b1 = b2 = None
+        gc_was = gc.isenabled()
+        self.counter.install()
+        try:
+            for i in range(n2 + 1):
+                if i == n1 or i == n2:
+                    gc.collect()
+                    if i == n1:
+                        b1 = sys.getallocatedblocks()
+                    else:
+                        b2 = sys.getallocatedblocks()
+                        break
+                c = growth_case(rng, i)
+                o = self.impl(c)
+                st = o['status']
+                outcomes[st] = outcomes.get(st, 0) + 1
+                if st in ('ALARM', 'BUDGET', 'MEMORY') or o['steps'] > o['bound']:
+                    if worst is None:
+                        worst = (c, o, i)
+                    if st == 'ALARM':
+                        break
+                del c, o
+        finally:
+            self.counter.restore()
+            if gc_was:
+                gc.enable()
+        done = i
+        ctx.case('cumulative-growth', sample={'op': 'growth', 'inputs': done}, n=done)
+        ctx.impl_trace(done)
+        for k, v in sorted(outcomes.items()):
+            ctx.stat('growth outcome=%s' % k, v)
+        if worst is not None:
+            c, o, i = worst
+            o.pop('cpu', None)
+            ctx.violation(self.key(c, 'decode-work-not-linear' if o['status'] != 'ALARM' else 'decode-does-not-terminate'),
+                          'after %d other hostile inputs in the same process, %s exceeded its budget (%s, %d invocations, bound %d)'
+                          % (i, 'parseMessage' if c['op'] == 'p' else 'unmarshal(%r)' % (c['sig'][:40],), o['status'], o['steps'], o['bound']),
+                          inp=dict(inp, n2=i + 1, n1=min(n1, i)), observed=o, expected='return or exception within the step budget')
+        if b1 is None or b2 is None or n2 - n1 < 1000:      # (a replay of a budget violation inside the loop has no window)
+            return
+        per = (b2 - b1) / float(n2 - n1)
+        ctx.stat('growth: %.4f retained blocks per input between input %d and %d' % (per, n1, n2))
+        if per >= GROWTH_LIMIT:
+            ctx.violation('decode-state-grows-without-bound',
+                          'decoding %d pairwise distinct small hostile inputs (signatures at top level, inside a variant, as body '
+                          'signature) leaves %d more memory blocks allocated than decoding %d of them: %.2f per input, each '
+                          'rejected input costs the process memory for ever' % (n2, b2 - b1, n1, per),
+                          inp=inp, observed={'blocks_after_n1': b1, 'blocks_after_n2': b2, 'per_input': per},
+                          expected='retained state independent of the number of inputs decoded (< %.2f blocks per input)' % GROWTH_LIMIT)
 
     def scaling(self, sizes, with_cpu):
         """Model-independent: the same shape at n and 4n bytes must cost about 4 times as much - counted invocations and
@@ -1488,7 +1695,11 @@ def run(ctx):
     nvalid = ctx.scale(quick=150, thorough=1200)
     lim = None if thorough else 16
     for _ in range(nvalid):
-        sig, le, off, data, fds = gen_valid(rng, marshal)
+        try:
+            sig, le, off, data, fds = gen_valid(rng, marshal)
+        except Exception as e:      # the tree's own ENCODER refuses a conforming value (e.g. after an earlier decode left a
+            ctx.stat('generator: marshal of a conforming value raised %s' % type(e).__name__)   # memo half-filled): C01's
+            continue                # finding, not this harness's crash - the decode streams go on
         ctx.stat('valid-sig-len=%d' % min(len(sig), 20))
         ctx.stat('fds=' + ('None' if fds is None else 'list' if fds else '[]'))
         base = {'op': 'u', 'sig': sig, 'le': le, 'off': off, 'fds': fds}
@@ -1514,7 +1725,11 @@ def run(ctx):
     nmsg = ctx.scale(quick=80, thorough=300)
     lim = None if thorough else 24
     for _ in range(nmsg):
-        raw, fds = gen_message(rng, marshal, message)
+        try:
+            raw, fds = gen_message(rng, marshal, message)
+        except Exception as e:
+            ctx.stat('generator: building a valid message raised %s' % type(e).__name__)
+            continue
         ctx.stat('fds=' + ('None' if fds is None else 'list' if fds else '[]'))
         R.add('message-truncated-mutated', {'op': 'p', 'data': raw, 'fds': fds})
         for d in truncations(raw, rng, lim):
@@ -1637,6 +1852,29 @@ def run(ctx):
             R.flush()
     R.flush()
 
+    # ---- state-leak round: histories in one process (STATE_AUDIT G8 iii / v)
+    for _ in range(ctx.scale(quick=60, thorough=400)):
+        try:
+            hist = poison_history(rng, marshal)
+        except Exception as e:
+            ctx.stat('generator: marshal of a conforming value raised %s' % type(e).__name__)
+            continue
+        for c in hist:
+            R.add('poison-then-valid', c)
+        if len(R.pending) > 3000:
+            R.flush()
+    R.flush()
+    for _ in range(ctx.scale(quick=40, thorough=200)):
+        try:
+            hist = fds_history(rng, marshal)
+        except Exception as e:
+            ctx.stat('generator: marshal of a conforming value raised %s' % type(e).__name__)
+            continue
+        for c in hist:
+            R.add('same-bytes-two-fds', c)
+    R.flush()
+    R.growth(rng.getrandbits(32), *((5000, 20000) if not thorough else (10000, 60000)))
+
     # ---- scaling: n vs 4n (oracle only)
     R.scaling([16384] if not thorough else [65536, 262144], with_cpu=thorough)
 
@@ -1649,6 +1887,15 @@ def replay(ctx, data):
         return recursion_limit_check(ctx)
     if 'scaling' in data['input']:
         return R.scaling([data['input']['n']], True)
+    if data['input'].get('op') == 'growth':
+        R.check_hooks()
+        return R.growth(data['input']['seed'], data['input']['n1'], data['input']['n2'])
+    if data['input'].get('op') == 'history':        # a leak through process state: run the whole history, in order
+        R.check_hooks()
+        R.calibrate_frames()
+        for c in as_history([case_from_json(d) for d in data['input']['cases']]):
+            R.add(data.get('stream', 'poison-then-valid'), c)
+        return R.flush()
     R.check_hooks()
     R.calibrate_frames()
     R.add(data.get('stream', 'replay'), case_from_json(data['input']))
